@@ -68,7 +68,8 @@ ReasonsAreUnit ==
      LET a == st.asg[v]  c == st.cnf[a.rsn + 1] IN
      /\ <<v, a.val>> \in LitSet(c)
      /\ \A l \in LitSet(c) : l[1] # v => /\ st.asg[l[1]].on /\ st.asg[l[1]].val # l[2] /\ st.asg[l[1]].lvl <= a.lvl
-LearnedEntailed == \A k \in (st.n0 + 1)..Len(st.cnf) : \A m \in Models(st.cnf0) : HoldsIn(LitSet(st.cnf[k]), m)
+LearnedEntailed == Len(st.cnf) > st.n0 =>
+                   LET M == Models(st.cnf0) IN \A k \in (st.n0 + 1)..Len(st.cnf) : \A m \in M : HoldsIn(LitSet(st.cnf[k]), m)
 
 \* ---------------------------------------------------------------- conformance with the recorded behaviour of the code
 \* registers: 11 = vector indices whose recorded (verdict, certificate) is a result of this model,
